@@ -22,9 +22,9 @@ import (
 // arguments, against a single node and against a 3-node cluster driven into each role. One child per sequence.
 
 type apiCtx struct {
-	x     *Ctx
-	r     *rand.Rand
-	calls []string
+	x         *Ctx
+	r         *rand.Rand
+	calls     []string
 	hangBound time.Duration
 }
 
